@@ -167,6 +167,10 @@ var ruleBOMTable = &core.Rule{ID: "R07.3", Min: 7,
 	Doc: "the BOM table is exactly the five Unicode marks with their charset names, no entry is shadowed by an earlier entry that is its prefix, and the lookup returns the name of the first entry that prefixes the input, else the empty string",
 	Run: func(c *core.Ctx, s *core.Sink) {
 		cm := getCharset(c)
+		if cm.bomSwitch {
+			bomSwitchCheck(c, s, cm.bomFn)
+			return
+		}
 		if cm.bomFn == nil || !cm.bomsOK {
 			core.Bail("BOM lookup function / constant table not found")
 		}
@@ -622,3 +626,153 @@ var ruleLatin = &core.Rule{ID: "R11.6", Min: 256,
 		}
 		s.Check(p.latin.Call.Args[0] == ssa.Value(p.f.Params[0]), "Latin fallback on the unmodified input", c.Pos(p.latin.Pos()), "argument is the parameter", "the Latin fallback runs on something other than the sniffer's input")
 	}}
+
+// bomSwitchCheck judges a hand-written BOM lookup (explicit byte tests, no
+// table). (A) Path conditions: every return of a charset name is dominated by
+// exactly the equalities input[i] == mark[i] for the mark of that name and by
+// a length bound of exactly len(mark) — a larger bound loses a mark at the very
+// end of the examined bytes, a missing equality accepts look-alikes. (B) For
+// each of the five marks the function, folded with the input's leading bytes
+// and length fixed, returns the mark's name both when the mark is the whole
+// input and when more bytes follow (reachability, no shadowing by a shorter
+// mark).
+func bomSwitchCheck(c *core.Ctx, s *core.Sink, f *ssa.Function) {
+	in := f.Params[0]
+	// byte loads at constant positions and length reads
+	idxOf := func(v ssa.Value) (int64, bool) {
+		u, ok := v.(*ssa.UnOp)
+		if !ok || u.Op != token.MUL {
+			return 0, false
+		}
+		ia, ok := u.X.(*ssa.IndexAddr)
+		if !ok || ia.X != ssa.Value(in) {
+			return 0, false
+		}
+		return core.ConstInt(ia.Index)
+	}
+	isLen := func(v ssa.Value) bool {
+		call, ok := v.(*ssa.Call)
+		return ok && core.IsBuiltin(&call.Call, "len") && call.Call.Args[0] == ssa.Value(in)
+	}
+	seen := map[string]bool{}
+	for _, r := range core.Returns(f) {
+		name, _ := core.ConstString(r.Results[0])
+		if name == "" {
+			continue
+		}
+		key := fmt.Sprintf("%s: conditions of return %q (%s)", f.Name(), name, returnOrdinal(r))
+		var mark []byte
+		for _, w := range wantBOMs {
+			if w.name == name {
+				mark = w.mark
+			}
+		}
+		if mark == nil {
+			s.Bad(key, c.Pos(r.Pos()), fmt.Sprintf("the BOM lookup returns %q, which is not the name of a Unicode byte-order mark", name))
+			continue
+		}
+		seen[name] = true
+		eq := map[int64]int64{}
+		minLen := int64(0)
+		bad := ""
+		for _, de := range core.DominatingConds(r.Block()) {
+			cond, val := core.StripNot(de.Cond, de.Val)
+			bo, ok := cond.(*ssa.BinOp)
+			if !ok {
+				continue
+			}
+			if i, ok := idxOf(bo.X); ok {
+				k, isC := core.ConstInt(bo.Y)
+				if isC && ((bo.Op == token.EQL && val) || (bo.Op == token.NEQ && !val)) {
+					if old, dup := eq[i]; dup && old != k {
+						bad = "contradictory byte tests"
+					}
+					eq[i] = k
+				}
+				continue
+			}
+			if isLen(bo.X) {
+				k, isC := core.ConstInt(bo.Y)
+				if !isC {
+					continue
+				}
+				need := int64(-1)
+				switch {
+				case bo.Op == token.GTR && val, bo.Op == token.LEQ && !val:
+					need = k + 1
+				case bo.Op == token.GEQ && val, bo.Op == token.LSS && !val:
+					need = k
+				case bo.Op == token.EQL && val:
+					need = k
+				}
+				if need > minLen {
+					minLen = need
+				}
+			}
+		}
+		for i, b := range mark {
+			if v, ok := eq[int64(i)]; !ok || v != int64(b) {
+				bad = fmt.Sprintf("byte %d of the mark (%#02x) is not required", i, b)
+			}
+		}
+		for i := range eq {
+			if i >= int64(len(mark)) {
+				bad = fmt.Sprintf("a byte beyond the mark (position %d) is required", i)
+			}
+		}
+		if bad == "" && minLen != int64(len(mark)) {
+			bad = fmt.Sprintf("the length required is %d bytes, the mark has %d: a mark that ends the examined bytes is missed (or the bytes are read without a guard)", minLen, len(mark))
+		}
+		s.Check(bad == "", key, c.Pos(r.Pos()), fmt.Sprintf("exactly the %d bytes of the mark, length >= %d", len(mark), len(mark)), "the byte-order mark of "+name+" is not recognised by exactly its bytes: "+bad)
+	}
+	for _, w := range wantBOMs {
+		if !seen[w.name] {
+			s.Bad(fmt.Sprintf("mark % x", w.mark), c.Pos(f.Pos()), "Unicode byte-order mark missing from the hand-written lookup")
+		}
+	}
+	// (B) folded evaluation per mark
+	for _, w := range wantBOMs {
+		for _, extra := range []int{0, 3} {
+			key := fmt.Sprintf("%s: mark % x followed by %d bytes", f.Name(), w.mark, extra)
+			ev := newEval(c)
+			ev.Env = fde.Env{}
+			und := ""
+			for _, b := range f.Blocks {
+				for _, ins := range b.Instrs {
+					v := valueOf(ins)
+					if v == nil {
+						continue
+					}
+					if isLen(v) {
+						ev.Env[v] = constant.MakeInt64(int64(len(w.mark) + extra))
+					}
+					if u, ok := v.(*ssa.UnOp); ok && u.Op == token.MUL {
+						if ia, ok := u.X.(*ssa.IndexAddr); ok && ia.X == ssa.Value(in) {
+							i, isC := core.ConstInt(ia.Index)
+							if !isC {
+								und = "input indexed at a non-constant position"
+								continue
+							}
+							bv := int64(0x41)
+							if i < int64(len(w.mark)) {
+								bv = int64(w.mark[i])
+							}
+							ev.Env[v] = constant.MakeInt64(bv)
+						}
+					}
+				}
+			}
+			if und != "" {
+				s.Und(key, c.Pos(f.Pos()), und)
+				continue
+			}
+			exits, err := ev.Walk(f.Blocks[0], nil, nil, 0)
+			if err != nil || len(exits) != 1 || exits[0].Ret == nil {
+				s.Und(key, c.Pos(f.Pos()), fmt.Sprintf("not evaluable: %v", err))
+				continue
+			}
+			got, _ := core.ConstString(exits[0].Ret.Results[0])
+			s.Check(got == w.name, key, c.Pos(exits[0].Ret.Pos()), w.name, fmt.Sprintf("an input starting with the mark % x (%d more bytes) is reported as %q instead of %q", w.mark, extra, got, w.name))
+		}
+	}
+}
